@@ -92,6 +92,19 @@ def judge(case, impl, model):
     if impl.get("full_is_input"):
         fails.append(("live-state:input-document-returned", f"convert_dict returned the input object itself: doc={_short(doc)}"))
 
+    # ---- documented single-step contract (Spec `stepViolations`, evaluated by the Lean driver on the real states)
+    for k, v in enumerate(model.get("modelSteps") or []):
+        if v:
+            msg = msg or f"model self-check: the model's own step {k}->{k + 1} violates the step contract: {v}"
+    for k, v in enumerate(model.get("implSteps") or []):
+        if v:
+            clause = v[0].split("/")[-1].split(":")[0]
+            st = impl["stages"]
+            fails.append((f"step-contract:{clause}",
+                          f"applying mapping {k + 1} ({_short(case['ms'][k], 300)}) to {_short(st[k]['s1'])} gave "
+                          f"{_short(st[k + 1]['s1'])}: violates {v[:4]}"))
+            break
+
     # ---- laws for start versions convert_dict is specified for
     if int_version and ver >= 1:
         full = impl["full"]
